@@ -87,7 +87,28 @@ def families(tier="quick"):
                     "text": "main:\n    addi sp, sp, -8\n    %s\n    jal ra, f\n    %s\n    addi sp, sp, 8\n" % (A[c[0]], A[c[1]]) + EXIT +
                             "f:\n    addi sp, sp, -4\n    sw s0, 0(sp)\n    li s0, 1\n    lw s0, 0(sp)\n    addi sp, sp, 4\n    ret\n"}
                    for c in itertools.product(range(len(A)), repeat=2)]
+    # function bodies: at a function entry the callee-saved registers are "original" values, so saving and
+    # restoring them goes through the Orig-slot rewrites (rule_known_values_to_stack / rule_value_from_stack)
+    F = FUNC_ALPHABET
+    m = 3 if tier == "quick" else 4
+    fam["func"] = [{"name": "func_" + "_".join("%x" % i for i in c),
+                    "text": "main:\n    jal ra, f\n" + EXIT + "f:\n    addi sp, sp, -8\n" + "".join("    %s\n" % F[i] for i in c) + "    addi sp, sp, 8\n    ret\ng:\n    li a0, 1\n    ret\n"}
+                   for L in range(1, m + 1) for c in itertools.product(range(len(F)), repeat=L)]
     return fam
+
+
+FUNC_ALPHABET = [
+    "sw s0, 4(sp)",
+    "sw ra, 0(sp)",
+    "li s0, 1",
+    "mv t0, s0",
+    "lw s0, 4(sp)",
+    "lw ra, 0(sp)",
+    "lw t0, 4(sp)",
+    "sw t0, 4(sp)",
+    "addi s0, s0, 1",
+    "jal ra, g\n    nop",
+]
 
 
 def catalogue(length=3, tier="quick"):
